@@ -472,3 +472,26 @@ Theorem C09_str_decided_panics :
     arb_str_decide d = SVPanicsOn bs -> arb_str lib d bs = OPanic /\ bytes_ok bs = true.
 Proof. exact arb_str_decide_panics_sound. Qed.
 Print Assumptions C09_str_decided_panics.
+
+(* --- the decision procedure the correspondence runs: arb_float_decide refined on its Unknown answers by the
+   overflow witness (`finite` beside one bound whose sum with +-MAX overflows: the input that draws MAX panics;
+   this closes the recorded class float_one_sided_finite_overflow) --------------------------------------------- *)
+Theorem C09_float_decided_ext_total :
+  forall (lib : fnlib) (d : decl) (bs : bytes),
+    arb_float_decide_ext d = AVTotal -> bytes_ok bs = true ->
+    exists v, arb_float lib d bs = OOk v /\ spec_valid lib d v = true.
+Proof. exact arb_float_decide_ext_total_sound. Qed.
+Theorem C09_float_decided_ext_panics :
+  forall (lib : fnlib) (d : decl) (bs : bytes),
+    arb_float_decide_ext d = AVPanicsOn bs -> arb_float lib d bs = OPanic /\ bytes_ok bs = true.
+Proof.
+  intros lib d bs H. split.
+  - exact (arb_float_decide_ext_panics_sound lib d bs H).
+  - exact (arb_float_decide_ext_panics_bytes_ok d bs H).
+Qed.
+Print Assumptions C09_float_decided_ext_panics.
+
+(* `finite, less_or_equal = -3.0e38` on f32: left open by arb_float_decide, decided by the refinement *)
+Example C09_float_decided_ext_example :
+  arb_float_decide_ext (ex_decl (FFloat false) [] [VFinite; VLessOrEqual (BLit 4284688930)]) = AVPanicsOn [255; 255; 127; 127].
+Proof. vm_compute. reflexivity. Qed.
